@@ -20,8 +20,8 @@ structure Quirks where
   deriving Repr, DecidableEq, Inhabited
 
 def Quirks.current : Quirks :=
-  { endTagSpaceTwice := false, verbatimCommentLstrip := false, splitIgnoresSep := true,
-    attrIndexOffByOne := true, sharedFallbackVar := true, textModeIdentify := true }
+  { endTagSpaceTwice := false, verbatimCommentLstrip := false, splitIgnoresSep := false,
+    attrIndexOffByOne := false, sharedFallbackVar := false, textModeIdentify := true }
 
 def Quirks.ideal : Quirks :=
   { endTagSpaceTwice := false, verbatimCommentLstrip := false, splitIgnoresSep := false,
